@@ -41,7 +41,7 @@ CLAIMS = {
         note="A delivery may be missing only if >= buflen other deliveries to that connection were unread; connections ended by the environment may lose queued deliveries (unclaimed).",
         technique=E1_TECH, design="DESIGN.md §4 C07"),
     "C08": dict(engine="vsched", category="model_checking",
-        text="All schedules of one real MergeHandler session over scripted REQ children (7 behaviours: stored+EOSE, EOSE+live, unsorted, non-matching, duplicate-of-sibling, EOSE-only, late-EOSE) for every pair of behaviours x 4 client scripts x filter sets; unbounded (complete up to state caching) within a per-job budget, otherwise complete up to a delay bound; oracle on the client stream: one EOSE after all children, ordered de-duplicated matching limited stream before, live events forwarded unchanged in child order after. Two sessions on ONE merge handler using the same subscription id at once (7 behaviour pairs x 2 scripts x 2 filter sets, delay-bounded): each session is judged by the single-session oracle.",
+        text="All schedules of one real MergeHandler session over scripted REQ children (7 behaviours: stored+EOSE, EOSE+live, unsorted, non-matching, duplicate-of-sibling, EOSE-only, late-EOSE) for every pair of behaviours x 5 client scripts x filter sets; unbounded (complete up to state caching) within a per-job budget, otherwise complete up to a delay bound; oracle on the client stream: one EOSE after all children, ordered de-duplicated matching limited stream before, live events forwarded unchanged in child order after. Two sessions on ONE merge handler using the same subscription id at once (7 behaviour pairs x 2 scripts x 2 filter sets, delay-bounded): each session is judged by the single-session oracle.",
         note="Events a child sends between its own EOSE and the merged EOSE are unclaimed; histories do not re-issue an id before its EOSE (the property's quantifier).",
         technique=E1_TECH, design="DESIGN.md §4 C08"),
     "C09": dict(engine="vsched", category="model_checking",
